@@ -35,6 +35,15 @@ CHECKS = {
          'index schemes x declaration orders x all prefixes is looked up',
          'trusted: the oracles in checks/c17.py; fan-in accepts both readings for state elements (exact on combinational graphs); D8 prefixes',
          'DESIGN.md section 4 C17'),
+
+ 'C02': ('exploration', 'bounded exhaustive input-space enumeration vs. reference algebra + direct X-soundness over all completions',
+         'every T1/T2/T3/T4 circuit is simulated on ALL 4^n and 8^n assignments (n <= 4) in 4- and 8-valued mode; captured values are compared with the '
+         'reference algebra, every 0/1 result with every 0/1 completion of its unknown inputs, and initial/final components with the 2-valued reference',
+         'trusted: mc/ref.py algebra; X and - identified; bounds on circuit size in evidence', 'DESIGN.md section 4 C02'),
+ 'C16': ('exploration', 'bounded exhaustive enumeration of (circuit, logic, stimulus, injected line, injected value) vs. cut-and-drive reference',
+         'for every evaluated line of every circuit of the families, in all three logics and on all stimuli, the callback is used to record, to do '
+         'nothing and to overwrite with each of four values; results are compared with a reference evaluation of the graph with that line cut',
+         'trusted: mc/ref.py graph evaluator; memory reuse off; callback argument accepted as Line or index', 'DESIGN.md section 4 C16'),
 }
 
 NOT_YET = 'check not built yet in this session (see DESIGN.md build order); will be claimed once its exhaustive check exists'
